@@ -36,6 +36,14 @@ func init() {
 	RegisterWorld("expiry", func(cfg Config) GenWorld {
 		w := &ExpWorld{cfg: cfg, docs: map[string]*expDoc{"A/k": {}, "A/j": {}, "B/k": {}}}
 		w.open(rosmar.CreateOrOpen)
+		// warm-up: one expiry sweep has already run (a document in each collection expired), so every
+		// lazily filled cache the sweep uses is in the state it has in a bucket that has lived a while
+		must(w.a.SetRaw("w", 1, nil, []byte("0")))
+		must(w.b.SetRaw("w", 1, nil, []byte("0")))
+		vrt.Advance(5 * time.Second)
+		vrt.Quiesce()
+		w.fa.Take()
+		w.fb.Take()
 		return w
 	})
 }
@@ -72,6 +80,7 @@ func (w *ExpWorld) Alphabet(tier int) []string {
 		ops = append(ops, "uxe/r10", "upd/r10", "upd/0", "wux/r10", "res/r30", "dwx", "wtx", "updonly/r10")
 	}
 	ops = append(ops, "setp", "wwxp", "uxp", "del", "j.set/r10", "j.set/r30", "b.set/r10", "b.set/r30", "b.touch/0", "adv/5", "adv/15", "adv/40")
+	ops = append(ops, "b.drs/r10") // drop collection B, create it again, write B/k with an expiry
 	if w.cfg.Disk {
 		ops = append(ops, "reopen")
 	}
@@ -207,6 +216,23 @@ func (w *ExpWorld) Apply(op string) (string, []Violation) {
 		err = cl.Delete(key)
 		z := uint32(0)
 		newExp = &z
+	case "drs":
+		must(w.h.DropDataStore(NameB))
+		vrt.Quiesce()
+		if !w.fb.DoneClosed() {
+			c.add("C11", "drop-feed", "DropDataStore(B) did not end the feed on B")
+		}
+		w.fb.CloseTerm()
+		w.b = coll(w.h, NameB)
+		cl = w.b
+		var ferr error
+		w.fb, ferr = StartLiveFeed(w.b, "fb")
+		must(ferr)
+		pre, cur = nil, 0
+		doc.live, doc.exp = false, 0
+		err = cl.Set(key, expArg(parts[1]), nil, []byte("5"))
+		e := wantExp(parts[1])
+		newExp = &e
 	case "adv":
 		var n int
 		fmt.Sscanf(parts[1], "%d", &n)
@@ -327,7 +353,7 @@ func (w *ExpWorld) Canon() string {
 	for _, t := range vrt.PendingTimers() {
 		ts = append(ts, (t-vrt.NowNanos())/1e9)
 	}
-	fmt.Fprintf(&b, "next=%d/%v timers=%v", reln, has, ts)
+	fmt.Fprintf(&b, "next=%d/%v timers=%v caches=%s", reln, has, ts, CacheState(w.h))
 	return b.String()
 }
 
